@@ -66,7 +66,13 @@ func (l *layout) node(v gen.Val) {
 	case "float":
 		l.write(gen.FloatLit(v.Float()))
 	case "str":
-		l.write(fmt.Sprintf("%q", string(v.B)))
+		if raw, ok := strings.CutPrefix(string(v.B), "RAW:"); ok {
+			// a raw string literal spanning several lines: what follows it on
+			// its last line has that line's column
+			l.write(`"""` + raw + `"""`)
+		} else {
+			l.write(fmt.Sprintf("%q", string(v.B)))
+		}
 	case "sym":
 		l.write(string(v.B))
 	case "list":
@@ -245,10 +251,18 @@ var failKinds = []string{"unbound", "unbound-head", "error", "type", "type2", "a
 	"aref-range", "get-type", "sorted-map-odd", "in-handler", "keyword-unknown", "optional-too-many", "lambda-call-arity", "set-quoted-constant", "dotimes-type", "div-zero",
 	"macro-arity", "macro-body-error", "arg-of-user-call", "let-init", "let*-init2", "if-condition", "cond-test", "dotimes-count", "and-first", "progn-middle",
 	"thread-last", "thread-first-arg", "tail-self-arity", "tail-self-arity-if", "set-value", "flet-bad-binding", "let-bad-binding", "lambda-bad-formals"}
-var wrapKinds = []string{"let", "let*", "cond", "dotimes", "handler-bind", "progn", "if", "plus-arg", "map-callback", "funcall", "apply", "labels", "flet", "and", "or-last", "thread-first", "foldl"}
+var wrapKinds = []string{"raw-string-before", "raw-string-before", "callback-after-tail-loop", "callback-after-tail-loop", "let", "let*", "cond", "dotimes", "handler-bind", "progn", "if", "plus-arg", "map-callback", "funcall", "apply", "labels", "flet", "and", "or-last", "thread-first", "foldl"}
 
 func wrap(kind string, inner gen.Val) gen.Val {
 	switch kind {
+	case "raw-string-before":
+		// a multi-line raw string (3+ lines) is the token before the form
+		return L(S("progn"), gen.Str("RAW:first line\n  second\n\nfourth (line"), inner)
+	case "callback-after-tail-loop":
+		// a builtin calls the same function twice: the first call collapses a
+		// self tail loop, the second one fails
+		return L(S("labels"), L(L(S("cbk"), L(S("k")), L(S("if"), L(S(">"), S("k"), I(0)), L(S("cbk"), L(S("-"), S("k"), I(1))), L(S("if"), L(S("="), S("k"), I(-1)), inner, S("k"))))),
+			L(S("map"), QS("list"), S("cbk"), L(S("list"), I(2), I(-1))))
 	case "let":
 		return L(S("let"), L(L(S("t1"), L(S("+"), S("x"), I(1)))), inner)
 	case "let*":
